@@ -1393,7 +1393,7 @@ fn main() -> std::process::ExitCode {
         "C10",
         "gen_fn IL functions (1-9 blocks, 0-4 generated operations each of all six kinds over a pool of 2-6 scalars of widths 1..128, 0-3 out-edges with exclusive/exhaustive guards, loops through the entry, self-loops, unreachable blocks that may feed live ones, entry sometimes moved) plus planted scalars assigned in 2-3 blocks and read only by the guards of one block / only by one Store, Load, Branch operand or intrinsic read set, x 8 initial states; ssa_transformation's result is checked statically (structure modulo SSA indices, single assignment, reaching-versions data-flow at every operand / guard / phi input, phi shape) and by lock-step execution against the original (reference interpreter on both, phi nodes selected by the incoming edge); non-trivial = some use (operand or guard) in the reachable part of the original is reached by >= 2 definitions of its scalar (which implies a join block); distinct = (reachable blocks, joins, set of (kind of multi-definition use, loop-carried), unreachable predecessor, phi count capped, loop through entry)",
         Box::new(|_t: Tier| from_tape(2000, decode)),
-        |t| t.pick(25_000, 1_000_000),
+        |t| t.pick(100_000, 3_000_000),
         check,
     );
     spec.render = render;
